@@ -130,7 +130,7 @@ func init() {
 		}
 	}
 	c08 := []string{"srv-req-read-close", "srv-req-close", "srv-req-close-smallpipe", "srv-two-seq", "srv-pipelined", "srv-panics", "srv-half-then-close",
-		"srv-4bytes-then-close", "srv-stray-response", "srv-hookfail-req", "srv-hookok-seq", "srv-garbage", "srv-undecodable", "srv-undecodable-item", "srv-undecodable-item2", "srv-undecodable-payload", "srv-undecodable-nocount", "srv-toobig", "srv-req-then-garbage", "srv-slow-close", "srv-halfclose", "srv-3pipelined-close"}
+		"srv-4bytes-then-close", "srv-stray-response", "srv-hookfail-req", "srv-hookok-seq", "srv-garbage", "srv-undecodable", "srv-undecodable-item", "srv-undecodable-item2", "srv-undecodable-payload", "srv-undecodable-nocount", "srv-undecodable-short-count", "srv-undecodable-short-major", "srv-undecodable-short-operation", "srv-undecodable-short-timestamp", "srv-toobig", "srv-req-then-garbage", "srv-slow-close", "srv-halfclose", "srv-3pipelined-close"}
 	c08long := []string{"srv-refused-requests-a", "srv-refused-requests-b", "srv-refused-requests-c", "srv-hookfail-2conn"} // long scripts: delay bounding
 	c08multi := []string{"srv-2conn-good-bad", "srv-2conn-good-abrupt", "srv-3conn", "srv-4pipelined-read1-close"}
 	plans["C08"] = Plan{
@@ -159,10 +159,11 @@ func init() {
 			"with cancellers/timeouts firing at any point, within the bound per shard; distinct = distinct (scenario, outcome) classes. " + boundingNote,
 		Assumptions: []string{timeAssumption, netAssumption, fifoAssumption},
 		Keep:        hasPrefix("fail:misassociation", "fail:corrupt-response"),
-		Quick:       cat(db(100, B{{2, 0}, {3, 0}}, c10...), pb(100, B{{0, 0}, {1, 0}}, "cli-par-2"), db(100, B{{1, 0}, {2, 0}}, c10mw...)),
+		Quick:       cat(db(100, B{{2, 0}, {3, 0}}, c10...), pb(100, B{{0, 0}, {1, 0}}, "cli-par-2"), db(100, B{{1, 0}, {2, 0}}, c10mw...), pb(100, B{{0, 0}}, "cli-bytes-seq-par", "cli-bytes-cancel", "cli-cancel-then-next", "cli-negotiate-cancel")),
 		Thorough:    cat(db(1500, B{{3, 0}, {4, 0}}, c10...), pb(1500, B{{0, 0}, {1, 0}, {2, 0}}, c10...), db(1500, B{{3, 0}}, c10mw...), pb(1500, B{{0, 0}, {1, 0}}, c10mw...)),
 	}
 	c11 := []string{"clf-negotiate-nocommon", "clf-close-during-call", "clf-close-during-call-srvclose", "clf-close-during-par", "clf-seq3", "clf-seq3-srvclose", "clf-seq3-dial", "clf-negotiate", "clf-par-2", "clf-close-only"}
+	c11pb := []string{"clf-negotiate-nocommon", "clf-close-during-call", "clf-close-during-call-srvclose", "clf-close-during-par", "clf-seq3", "clf-seq3-srvclose", "clf-seq3-dial", "clf-negotiate", "clf-close-only"} // preemption bound 0: every schedule that switches only at blocking points
 	c11drop := []string{"clf-drop-3", "clf-drop-4", "clf-drop-5"} // long scripts (up to 9 connections): small scheduling bounds
 	plans["C11"] = Plan{
 		Level: "fault_enumeration",
@@ -172,7 +173,7 @@ func init() {
 		Assumptions: []string{timeAssumption, netAssumption, fifoAssumption, "'promptly' is decided as 'without needing any further external event' (no caller blocked forever)",
 			"a call is only required to succeed when the previous call had already failed and no fault was injected during the call itself"},
 		Keep:     hasPrefix("panic:", "deadlock:", "leak:", "fail:no-recovery", "fail:spurious-failure", "fail:retransmit", "fail:call-after-close", "fail:corrupt-response", "fail:misassociation", "fail:server-got-garbage", "fail:dial-failed"),
-		Quick:    cat(db(100, B{{0, 1}, {1, 1}, {2, 1}}, c11...), db(100, B{{0, 2}, {1, 2}}, "clf-seq3-dial", "clf-seq3-srvclose"), db(100, B{{0, 1}, {1, 1}}, c11drop...), db(100, B{{0, 1}}, "clf-drop-9")),
+		Quick:    cat(db(100, B{{0, 1}, {1, 1}, {2, 1}}, c11...), db(100, B{{0, 2}, {1, 2}}, "clf-seq3-dial", "clf-seq3-srvclose"), db(100, B{{0, 1}, {1, 1}}, c11drop...), db(100, B{{0, 1}}, "clf-drop-9"), pb(100, B{{0, 1}}, c11pb...), pb(100, B{{0, 0}}, "clf-par-2")),
 		Thorough: cat(db(1500, B{{2, 1}, {3, 1}}, c11...), db(1500, B{{0, 2}, {1, 2}}, c11...), pb(1500, B{{0, 1}}, c11...), db(1500, B{{1, 1}, {2, 1}}, c11drop...), db(1500, B{{0, 1}, {1, 1}}, "clf-drop-9"), pb(1500, B{{0, 0}}, c11drop...)),
 	}
 
@@ -196,10 +197,10 @@ func init() {
 			"directly on one BatchExecutor and through two real server connections. distinct = distinct (scenario, outcome) classes. " + boundingNote,
 		Assumptions: []string{netAssumption, fifoAssumption, "placeholder accesses are declared to the scheduler as conflicting accesses so that the state cache cannot merge their orders"},
 		Keep:        hasPrefix("fail:placeholder", "panic:"),
-		Quick: cat(pb(100, B{{0, 0}}, "ph-seq-exhaustive-t", "ph-seq-exhaustive-mw", "ph-seq-nested", "ph-seq-nested-2exec"), pb(100, B{{2, 0}, {3, 0}}, "ph-conc-2", "ph-conc-2-mw", "ph-conc-2-mw3", "ph-conc-2-fail", "ph-conc-2-after-undo", "ph-conc-2-after-count", "ph-conc-2-after-version",
+		Quick: cat(pb(100, B{{0, 0}}, "ph-seq-exhaustive-t", "ph-seq-exhaustive-mw", "ph-seq-nested", "ph-seq-nested-2exec", "ph-seq-retry", "ph-seq-absorb"), pb(100, B{{2, 0}, {3, 0}}, "ph-conc-2", "ph-conc-2-mw", "ph-conc-2-mw3", "ph-conc-2-fail", "ph-conc-2-after-undo", "ph-conc-2-after-count", "ph-conc-2-after-version",
 			"ph-conc-2-after-faileditem", "ph-conc-2-after-panic", "ph-conc-2-after-ok", "ph-conc-2-after-undo-undo"), pb(100, B{{1, 0}, {2, 0}}, "ph-conc-3"),
 			db(100, B{{2, 0}}, "ph-srv-seq", "ph-srv-2conn")),
-		Thorough: cat(pb(1500, B{{0, 0}}, "ph-seq-exhaustive-x", "ph-seq-exhaustive-mw", "ph-seq-nested", "ph-seq-nested-2exec"), pb(1500, B{{3, 0}, {4, 0}, {5, 0}}, "ph-conc-2", "ph-conc-2-mw", "ph-conc-2-mw3", "ph-conc-2-fail", "ph-conc-2-after-undo", "ph-conc-2-after-count", "ph-conc-2-after-version",
+		Thorough: cat(pb(1500, B{{0, 0}}, "ph-seq-exhaustive-x", "ph-seq-exhaustive-mw", "ph-seq-nested", "ph-seq-nested-2exec", "ph-seq-retry", "ph-seq-absorb"), pb(1500, B{{3, 0}, {4, 0}, {5, 0}}, "ph-conc-2", "ph-conc-2-mw", "ph-conc-2-mw3", "ph-conc-2-fail", "ph-conc-2-after-undo", "ph-conc-2-after-count", "ph-conc-2-after-version",
 			"ph-conc-2-after-faileditem", "ph-conc-2-after-panic", "ph-conc-2-after-ok", "ph-conc-2-after-undo-undo"), pb(1500, B{{2, 0}, {3, 0}}, "ph-conc-3"),
 			db(1500, B{{3, 0}, {4, 0}}, "ph-srv-seq", "ph-srv-2conn"), pb(1500, B{{1, 0}}, "ph-srv-seq", "ph-srv-2conn")),
 	}
